@@ -41,7 +41,13 @@ def build_service(rec, behaviours=None):
         b = Unicode
         tag = XmlAttribute(Unicode)
 
-    from spyne import AnyXml
+    from spyne import AnyXml, DateTime, Double, Boolean
+
+    class OutHd(ComplexModel):
+        __namespace__ = TNS
+        _type_info = [('Set-Cookie', Unicode(max_occurs='unbounded')), ('X-Single', Integer), ('X-Text', Unicode),
+                      ('X-Retry-After', Integer(max_occurs='unbounded')), ('X-Shard', Array(Integer)), ('X-Seen', DateTime(max_occurs=2)),
+                      ('X-When', DateTime), ('X-Ratio', Double), ('X-Flag', Boolean)]
 
     class Frag(ComplexModel):
         __namespace__ = TNS
@@ -152,10 +158,33 @@ def build_service(rec, behaviours=None):
             from spyne.protocol.json import JsonDocument
             from spyne.protocol.xml import XmlDocument
             from spyne.protocol.yaml import YamlDocument
-            ctx.out_protocol = {'json': JsonDocument, 'xml': XmlDocument, 'yaml': YamlDocument}[fmt]()
+            from spyne.protocol.soap import Soap11
+            ctx.out_protocol = {'json': JsonDocument, 'xml': XmlDocument, 'yaml': YamlDocument, 'soap11': Soap11}[fmt]()
             if how == 'fault':
                 raise Fault('Client.Negotiated', 'refused in %s' % fmt)
+            if how == 'server_fault':
+                raise Fault('Server.Negotiated', 'failed in %s' % fmt)
+            if how == 'notfound':
+                raise ResourceNotFoundError('thing in %s' % fmt)
             return u'answer in %s' % fmt
+
+        @rpc(Unicode, _returns=Unicode, _out_header=OutHd)
+        def hdr(ctx, how):
+            # response headers: HttpRpc as output protocol turns them into HTTP headers, the SOAP protocols into header elements
+            import datetime as _dt
+            rec.enter('hdr', how)
+            ctx.out_header = OutHd(**{
+                'single': {'X-Single': 7, 'X-Text': u'one'},
+                'multi_text': {'Set-Cookie': [u'a=1', u'b=2']},
+                'multi_int': {'X-Retry-After': [30, 60]},
+                'array_int': {'X-Shard': [1, 2, 3]},
+                'multi_dt': {'X-Seen': [_dt.datetime(2020, 1, 2, 3, 4, 5), _dt.datetime(2021, 1, 2, 3, 4, 5)]},
+                'all': {'X-Single': 0, 'X-Text': u'caf\xe9', 'Set-Cookie': [u'c=3'], 'X-Retry-After': [0], 'X-Shard': [], 'X-Seen': [_dt.datetime(2020, 1, 2)],
+                        'X-When': _dt.datetime(2020, 1, 2, 3, 4, 5), 'X-Ratio': 0.5, 'X-Flag': True},
+                'scalars': {'X-When': _dt.datetime(2020, 1, 2, 3, 4, 5), 'X-Ratio': 1.5, 'X-Flag': False},
+                'empty': {},
+            }[how])
+            return how
 
         @rpc(Unicode, Unicode, _returns=Integer)
         def fail(ctx, code, msg):
